@@ -241,6 +241,9 @@ func init() {
 			}
 		}
 		forms = append(forms, m.EBin("in", m.EStr("b"), m.EName("s0")), m.EBin("in", m.EName("s0"), m.EStr("xabcx")))
+		// numbers of a million and more, integral or not, are written in positional notation
+		forms = append(forms, m.ENum(1234567.5), m.EBin("+", m.ENum(1000000), m.ENum(0.5)), m.EBin("~", m.EStr("x"), m.ENum(1234567.89)), m.ENum(99999999.25),
+			m.EBin("*", m.ENum(1234567.5), m.ENum(2)), m.EBin("/", m.ENum(12345678), m.ENum(8)), m.ENum(123456789012.5), m.EBin("-", m.ENum(0.5), m.ENum(2000000)))
 		for _, hn := range []string{"hn0", "hn1", "hn2", "hn3"} {
 			forms = append(forms, m.EAttr(m.EName(hn), "1"), m.EIdx(m.EName(hn), m.ENum(2)), m.EIdx(m.EName(hn), m.EStr("10")), m.EIdx(m.EName(hn), m.EName("i0")),
 				m.EIdx(m.EName(hn), m.EBin("~", m.EStr("1"), m.EStr("0"))), m.EBin("~", m.EAttr(m.EName(hn), "2"), m.EAttr(m.EName(hn), "10")))
